@@ -4651,7 +4651,7 @@ impl fmt::Display for Statement {
                 };
                 write!(f, "ON {object_type} {object_name} IS ")?;
                 if let Some(c) = comment {
-                    write!(f, "'{c}'")
+                    write!(f, "'{}'", value::escape_single_quote_string(c))
                 } else {
                     write!(f, "NULL")
                 }
@@ -7237,7 +7237,12 @@ impl Tag {
 
 impl Display for Tag {
     fn fmt(&self, f: &mut fmt::Formatter<'_>) -> fmt::Result {
-        write!(f, "{}='{}'", self.key, self.value)
+        write!(
+            f,
+            "{}='{}'",
+            self.key,
+            value::escape_single_quote_string(&self.value)
+        )
     }
 }
 
